@@ -143,6 +143,10 @@ func (s *Service) handleSubmitSyncCommitteeMessagesError(ctx context.Context,
 			return err
 		}
 		for i := range len(resp.Failures) {
+			if resp.Failures[i] == nil {
+				// Not a failure we can classify (and so not one we can allow).
+				continue
+			}
 			switch {
 			case strings.HasPrefix(resp.Failures[i].Message, "Verification: PriorSyncCommitteeMessageKnown"):
 				s.log.Trace().Str("provider", provider).Int("index", resp.Failures[i].Index).Msg("Message already received for that slot; ignoring")
@@ -162,6 +166,10 @@ func (s *Service) handleSubmitSyncCommitteeMessagesError(ctx context.Context,
 			return err
 		}
 		for i := range len(resp.Failures) {
+			if resp.Failures[i] == nil {
+				// Not a failure we can classify (and so not one we can allow).
+				continue
+			}
 			switch {
 			case resp.Failures[i].Message == "Ignoring sync committee message as a duplicate was processed during validation":
 				s.log.Trace().Str("provider", provider).Str("index", resp.Failures[i].Index).Msg("Message already received for that slot; ignoring")
